@@ -298,6 +298,45 @@ func Main(scenarios func() []Scenario) {
 		}
 		os.Exit(0)
 	}
+	if fr := os.Getenv("VERIF_SCHED_FREERUN"); fr != "" {
+		// side-condition pass (not a deciding step): every scenario body runs N times FREE-RUNNING (no scheduler
+		// attached: the shims fall through to the real primitives) in a binary built with -race. The cooperative
+		// scheduler only interleaves at synchronisation operations, which is complete only for data-race-free
+		// code; its hand-offs are happens-before edges that blind the detector, hence this separate pass.
+		n, _ := strconv.Atoi(fr)
+		scs := scenarios()
+		runs, odd := 0, 0
+		for _, sc := range scs {
+			for i := 0; i < n; i++ {
+				body, check, teardown := sc.Setup()
+				done := make(chan any, 1)
+				go func() {
+					defer func() { done <- recover() }()
+					body()
+				}()
+				select {
+				case p := <-done:
+					if p != nil {
+						fmt.Printf("FREERUN-PANIC %s: %v\n", sc.Name, p)
+						odd++
+					}
+				case <-time.After(60 * time.Second):
+					fmt.Printf("FREERUN-TIMEOUT %s (free-running body did not finish in 60 s)\n", sc.Name)
+					os.Exit(4)
+				}
+				if out := check(); out.Violation != "" {
+					odd++
+					fmt.Printf("FREERUN-OUTCOME %s: %s\n", sc.Name, out.Violation)
+				}
+				if teardown != nil {
+					teardown()
+				}
+				runs++
+			}
+		}
+		fmt.Printf("FREERUN scenarios=%d runs=%d non-clean-outcomes=%d\n", len(scs), runs, odd)
+		os.Exit(0)
+	}
 	w := os.Getenv("VERIF_SCHED_WORKER")
 	if w == "" {
 		return
